@@ -1,6 +1,6 @@
 (* C08 — property theorems (statements only; proofs live in Proofs*.v).  See notes/C08.md for the status of each. *)
 From Coq Require Import List ZArith QArith Qabs Bool.
-Require Import QV.C08.Model QV.C08.Spec QV.C08.Wf QV.C08.Proofs QV.C08.ProofsVec QV.C08.ProofsRev QV.C08.ProofsConst QV.C08.ProofsTotal QV.C08.ProofsProper QV.C08.ProofsCtor QV.C08.Hist QV.C08.ProofsHist QV.C08.ProofsTrafo QV.C08.ProofsConstT QV.C08.ProofsTotalT QV.C08.ProofsTable QV.C08.ProofsPar QV.C08.ProofsOp QV.C08.ProofsFlat QV.C08.ProofsDen QV.C08.ProofsSimple QV.C08.ProofsHistT QV.C08.Lin QV.C08.ProofsLin QV.C08.ProofsLinDen QV.C08.ProofsDedup QV.C08.ProofsLinHist QV.C08.ProofsR2 QV.C08.ProofsMirror QV.C08.ProofsOkb QV.C08.ProofsSubset QV.C08.ProofsRecipe QV.C08.ProofsRecipeT QV.C08.ProofsRecipeR QV.C08.ProofsMirrorT QV.C08.ProofsTg QV.C08.ProofsSubsetK QV.C08.ProofsRecipeG QV.C08.ProofsExcl QV.C08.Guards QV.C08.ProofsConstClosed.
+Require Import QV.C08.Model QV.C08.Spec QV.C08.Wf QV.C08.Proofs QV.C08.ProofsVec QV.C08.ProofsRev QV.C08.ProofsConst QV.C08.ProofsTotal QV.C08.ProofsProper QV.C08.ProofsCtor QV.C08.Hist QV.C08.ProofsHist QV.C08.ProofsTrafo QV.C08.ProofsConstT QV.C08.ProofsTotalT QV.C08.ProofsTable QV.C08.ProofsPar QV.C08.ProofsOp QV.C08.ProofsFlat QV.C08.ProofsDen QV.C08.ProofsSimple QV.C08.ProofsHistT QV.C08.Lin QV.C08.ProofsLin QV.C08.ProofsLinDen QV.C08.ProofsDedup QV.C08.ProofsLinHist QV.C08.ProofsR2 QV.C08.ProofsMirror QV.C08.ProofsOkb QV.C08.ProofsSubset QV.C08.ProofsRecipe QV.C08.ProofsRecipeT QV.C08.ProofsRecipeR QV.C08.ProofsMirrorT QV.C08.ProofsTg QV.C08.ProofsSubsetK QV.C08.ProofsRecipeG QV.C08.ProofsExcl QV.C08.Guards QV.C08.ProofsConstClosed QV.C08.ProofsTotalJ.
 Import ListNotations.
 Open Scope Q_scope.
 
@@ -105,6 +105,18 @@ Theorem C08_total_closed : forall w, okb w = true -> closedT w = true -> forall 
   inb c (channels w) = true -> kerr w c = false -> 0 <= t -> t <= duration w -> exists v, sample w c t = Some v.
 Proof. exact total_closed_T. Qed.
 Print Assumptions C08_total_closed.
+(* round 6: totality OFF THE JUNCTIONS, reversal around sequences / repetitions included.  The guard is [badT] (Guards.v): the
+   executable guard of C08_denotation_any_reversal_T and of Corr.v [excused] (which points of a rejected observation belong
+   to the known finding C08-reversed-composite-junction), instead of [rightopenT], which forbids a reversal around a
+   sequence / repetition at ALL times.  C08_total_guarded is the special case (C08_total_guard_subsumed). *)
+Theorem C08_total_off_junctions : forall w, okb w = true -> forall c t,
+  inb c (channels w) = true -> kerr w c = false -> 0 <= t -> t < duration w -> badT false w c t = false ->
+  exists v, sample w c t = Some v.
+Proof. exact total_off_junctions_T. Qed.
+Print Assumptions C08_total_off_junctions.
+Theorem C08_total_guard_subsumed : forall w, rightopenT w = true -> forall c t, badT false w c t = false.
+Proof. exact rightopenT_badT. Qed.
+Print Assumptions C08_total_guard_subsumed.
 Theorem C08_total_keyerror_refuted :
   exists w c t, okb w = true /\ closedT w = true /\ inb c (channels w) = true /\ kerr w c = true /\
                 get_sampled w c [t] = Err EKey.
